@@ -17,7 +17,7 @@
 (* executed at WB = 32 for conformance with halmos and model-checked       *)
 (* exhaustively at WB = 1 (MC_EvmSmall).                                   *)
 (***************************************************************************)
-EXTENDS EvmWord, Bytecode, Keccak, FiniteSets
+EXTENDS Cheats, Bytecode, Keccak, FiniteSets
 
 CONSTANT MEMCAP      \* memory accesses ending above MEMCAP bytes are "out of gas"
 
@@ -131,11 +131,15 @@ BinOps == (1..7) \cup {10, 11} \cup (16..20) \cup (22..24) \cup (26..29)
 Cur(m) == m.frames[Len(m.frames)]
 SetCur(m, f) == [m EXCEPT !.frames[Len(m.frames)] = f]
 
+\* per-frame prank state (vm.prank / vm.startPrank): applies to calls and creations made by this frame only
+NoPrank == [active |-> FALSE, sender |-> Zero, hasOrigin |-> FALSE, origin |-> Zero, keep |-> FALSE]
+
 NewFrame(kind, this, codeaddr, code, caller, origin, value, data, static, depth, world, nlogs, retOff, retSize) ==
     [kind |-> kind, this |-> this, codeaddr |-> codeaddr, code |-> code, jd |-> ValidJumpdests(code),
      caller |-> caller, origin |-> origin, value |-> value, data |-> data,
      pc |-> 0, stack |-> <<>>, mem |-> <<>>, ret |-> <<>>, static |-> static, depth |-> depth,
-     snapWorld |-> world, snapLogs |-> nlogs, retOff |-> retOff, retSize |-> retSize]
+     snapWorld |-> world, snapLogs |-> nlogs, retOff |-> retOff, retSize |-> retSize,
+     prank |-> NoPrank, viaPrank |-> FALSE]
 
 \* the current frame ends: ok/kind/data is what its parent (or the transaction) sees
 EndFrame(m, ok, kind, data) ==
@@ -172,34 +176,107 @@ Transfer(world, from, to, v) ==
          IN [world EXCEPT !.balance = b2]
 
 IDENTITY == WFromNat(4)
-IsPrecompileOrCheat(m, a) ==
+IsCheatAddr(m, a) == a \in m.env.cheatAddrs
+IsPrecompileOrOpaque(m, a) ==
     \/ (~BIsZero(a) /\ BCmp(a, WFromNat(10)) <= 0 /\ a # IDENTITY)
     \/ a \in m.env.opaque
+
+Unmodelled_(m) == [m EXCEPT !.status = "unmodelled"]
+
+\* a cheatcode call returns `ret` to the calling frame f (already advanced) and always succeeds
+CheatRet(m, f, ret, retOff, retSize) ==
+    LET nw == IF Len(ret) < retSize THEN Len(ret) ELSE retSize
+    IN SetCur(m, [f EXCEPT !.stack = Append(f.stack, One), !.ret = ret,
+                           !.mem = MemWrite(f.mem, retOff, SubSeq(ret, 1, nw))])
+
+\* the test is marked as failed; halmos (like a reverting vm.assert*) stops the path here
+FailNow(m) == [m EXCEPT !.status = "done", !.failed = TRUE,
+                        !.result = [ok |-> FALSE, kind |-> "Fail", data |-> <<>>]]
+
+FAILED_SLOT == <<102, 97, 105, 108, 101, 100>> \o BZero(WB - 6)          \* bytes32("failed")
+
+CheatDesc(m, sel) ==
+    LET ix == {i \in 1..Len(m.env.cheats) : m.env.cheats[i].sel = sel}
+    IN IF ix = {} THEN [kind |-> "none"] ELSE m.env.cheats[CHOOSE i \in ix : TRUE]
+
+SetPrank(m, f, sender, hasOrigin, origin, keep, retOff, retSize) ==
+    IF f.prank.active THEN Unmodelled_(m)       \* Foundry rejects the call; halmos stops the path: no verdict
+    ELSE CheatRet(m, [f EXCEPT !.prank = [active |-> TRUE, sender |-> sender, hasOrigin |-> hasOrigin,
+                                          origin |-> origin, keep |-> keep]], <<>>, retOff, retSize)
+
+CheatCall(m, f, to, args, retOff, retSize) ==
+    LET d == CheatDesc(m, Sl(args, 0, 4))
+        a0 == ArgWord(args, 0)
+        a1 == ArgWord(args, 1)
+        a2 == ArgWord(args, 2)
+        ok(mm) == CheatRet(mm, f, <<>>, retOff, retSize)
+    IN CASE d.kind = "assume" ->
+              IF BIsZero(a0) THEN [m EXCEPT !.status = "discard"] ELSE ok(m)
+         [] d.kind = "assert" ->
+              IF AssertHolds(d, args) THEN ok(m)
+              ELSE IF m.env.assertMode = "stop" THEN FailNow(m)
+              ELSE [ok(m) EXCEPT !.failed = TRUE]
+         [] d.kind = "store" ->
+              IF IsCheatAddr(m, AddrOf(a0)) /\ a1 = FAILED_SLOT /\ ~BIsZero(a2) THEN FailNow(m)   \* DSTest.fail()
+              ELSE IF ~Exists(m.world, AddrOf(a0)) THEN Unmodelled_(m)
+              ELSE [ok(m) EXCEPT !.world.storage = Put(m.world.storage, <<AddrOf(a0), a1>>, a2), !.cheated = TRUE]
+         [] d.kind = "load" ->
+              CheatRet(m, f, Get(m.world.storage, <<AddrOf(a0), a1>>, Zero), retOff, retSize)
+         [] d.kind = "deal" ->
+              [ok(m) EXCEPT !.world.balance = Put(m.world.balance, AddrOf(a0), a1), !.cheated = TRUE]
+         [] d.kind = "warp" -> [ok(m) EXCEPT !.env.timestamp = a0]
+         [] d.kind = "roll" -> [ok(m) EXCEPT !.env.number = a0]
+         [] d.kind = "fee" -> [ok(m) EXCEPT !.env.basefee = a0]
+         [] d.kind = "chainId" -> [ok(m) EXCEPT !.env.chainid = a0]
+         [] d.kind = "coinbase" -> [ok(m) EXCEPT !.env.coinbase = AddrOf(a0)]
+         [] d.kind = "difficulty" -> [ok(m) EXCEPT !.env.prevrandao = a0]
+         [] d.kind = "prank1" -> SetPrank(m, f, AddrOf(a0), FALSE, Zero, FALSE, retOff, retSize)
+         [] d.kind = "prank2" -> SetPrank(m, f, AddrOf(a0), TRUE, AddrOf(a1), FALSE, retOff, retSize)
+         [] d.kind = "startPrank1" -> SetPrank(m, f, AddrOf(a0), FALSE, Zero, TRUE, retOff, retSize)
+         [] d.kind = "startPrank2" -> SetPrank(m, f, AddrOf(a0), TRUE, AddrOf(a1), TRUE, retOff, retSize)
+         [] d.kind = "stopPrank" -> CheatRet(m, [f EXCEPT !.prank = NoPrank], <<>>, retOff, retSize)
+         [] d.kind = "etch" ->
+              [ok(m) EXCEPT !.world.code = Put(m.world.code, AddrOf(a0), ArgDyn(args, 1)), !.cheated = TRUE]
+         [] d.kind = "fresh" ->
+              IF m.noracle >= Len(m.env.oracle) THEN Unmodelled_(m)
+              ELSE LET sz == IF d.n < 0 THEN 0 ELSE ArgNat(args, d.n, 4096)
+                       raw == m.env.oracle[m.noracle + 1]
+                   IN IF (d.typ \in {"uint", "int"} /\ sz > NBITS) \/ (d.typ \in {"bytes", "string"} /\ sz > Len(raw))
+                      THEN Unmodelled_(m)
+                      ELSE [CheatRet(m, f, FreshReturn(d.typ, sz, raw), retOff, retSize) EXCEPT !.noracle = m.noracle + 1]
+         [] OTHER -> Unmodelled_(m)
 
 \* f: current frame, already advanced past the call instruction with its operands popped and the
 \* argument / return areas of its memory expanded
 DoCall(m, f, kind, to, value, args, retOff, retSize) ==
-    LET mp == SetCur(m, f)
-        fail == SetCur(m, [f EXCEPT !.stack = Append(f.stack, Zero), !.ret = <<>>])
+    LET pr == f.prank
+        pranked == pr.active
+        sender == IF pranked THEN pr.sender ELSE f.this
+        origin == IF pranked /\ pr.hasOrigin THEN pr.origin ELSE f.origin
+        g == IF pranked /\ ~pr.keep THEN [f EXCEPT !.prank = NoPrank] ELSE f          \* a single-use prank is consumed
+        mp == SetCur(m, g)
+        fail == SetCur(m, [g EXCEPT !.stack = Append(g.stack, Zero), !.ret = <<>>])
         needFunds == kind \in {"CALL", "CALLCODE"} /\ ~BIsZero(value)
-    IN IF IsPrecompileOrCheat(m, to) THEN [m EXCEPT !.status = "unmodelled"]
+    IN IF IsCheatAddr(m, to) THEN CheatCall(m, f, to, args, retOff, retSize)       \* cheatcode calls never consume a prank
+       ELSE IF IsPrecompileOrOpaque(m, to) THEN Unmodelled_(m)
+       ELSE IF pranked /\ kind \in {"DELEGATECALL", "CALLCODE"} THEN Unmodelled_(m)   \* Foundry's behaviour is version dependent
        ELSE IF f.depth >= DEPTH_LIMIT THEN fail
-       ELSE IF needFunds /\ WLt(Balance(m.world, f.this), value) THEN fail
+       ELSE IF needFunds /\ WLt(Balance(m.world, sender), value) THEN fail
        ELSE IF to = IDENTITY
        THEN LET nw == IF Len(args) < retSize THEN Len(args) ELSE retSize
-            IN [(SetCur(m, [f EXCEPT !.stack = Append(f.stack, One), !.ret = args,
-                                     !.mem = MemWrite(f.mem, retOff, SubSeq(args, 1, nw))]))
-                  EXCEPT !.world = IF kind = "CALL" THEN Transfer(m.world, f.this, to, value) ELSE m.world]
-       ELSE LET w1 == IF kind = "CALL" THEN Transfer(m.world, f.this, to, value) ELSE m.world
+            IN [(SetCur(m, [g EXCEPT !.stack = Append(g.stack, One), !.ret = args,
+                                     !.mem = MemWrite(g.mem, retOff, SubSeq(args, 1, nw))]))
+                  EXCEPT !.world = IF kind = "CALL" THEN Transfer(m.world, sender, to, value) ELSE m.world]
+       ELSE LET w1 == IF kind = "CALL" THEN Transfer(m.world, sender, to, value) ELSE m.world
                 nf == NewFrame(kind,
                                IF kind \in {"CALL", "STATICCALL"} THEN to ELSE f.this,
                                to, CodeOf(m.world, to),
-                               IF kind = "DELEGATECALL" THEN f.caller ELSE f.this,
-                               f.origin,
+                               IF kind = "DELEGATECALL" THEN f.caller ELSE sender,
+                               origin,
                                IF kind = "DELEGATECALL" THEN f.value ELSE IF kind = "STATICCALL" THEN Zero ELSE value,
                                args, f.static \/ kind = "STATICCALL", f.depth + 1,
                                m.world, Len(m.logs), retOff, retSize)
-            IN [mp EXCEPT !.frames = Append(mp.frames, nf), !.world = w1]
+            IN [mp EXCEPT !.frames = Append(mp.frames, [nf EXCEPT !.viaPrank = pranked]), !.world = w1]
 
 \* the address of the next contract created by CREATE: handed out by the environment
 \* (halmos numbers them; the real EVM hashes sender and nonce - programs must not depend on it)
@@ -209,19 +286,24 @@ Create2Addr(sender, salt, init) ==
     AddrOf(Keccak256(<<255>> \o SubSeq(sender, WB - 19, WB) \o salt \o Keccak256(init)))
 
 DoCreate(m, f, kind, value, init, salt) ==
-    LET addr == IF kind = "CREATE" THEN NextCreateAddr(m) ELSE Create2Addr(f.this, salt, init)
-        m1 == [SetCur(m, f) EXCEPT !.ncreated = IF kind = "CREATE" THEN m.ncreated + 1 ELSE m.ncreated]
-        fail == SetCur(m1, [f EXCEPT !.stack = Append(f.stack, Zero), !.ret = <<>>])
+    LET pr == f.prank
+        pranked == pr.active
+        sender == IF pranked THEN pr.sender ELSE f.this
+        origin == IF pranked /\ pr.hasOrigin THEN pr.origin ELSE f.origin
+        g == IF pranked /\ ~pr.keep THEN [f EXCEPT !.prank = NoPrank] ELSE f
+        addr == IF kind = "CREATE" THEN NextCreateAddr(m) ELSE Create2Addr(sender, salt, init)
+        m1 == [SetCur(m, g) EXCEPT !.ncreated = IF kind = "CREATE" THEN m.ncreated + 1 ELSE m.ncreated]
+        fail == SetCur(m1, [g EXCEPT !.stack = Append(g.stack, Zero), !.ret = <<>>])
     IN IF f.depth >= DEPTH_LIMIT THEN fail
-       ELSE IF ~BIsZero(value) /\ WLt(Balance(m.world, f.this), value) THEN fail
+       ELSE IF ~BIsZero(value) /\ WLt(Balance(m.world, sender), value) THEN fail
        ELSE IF Exists(m.world, addr) THEN fail                                          \* address collision
        ELSE LET w0 == [m.world EXCEPT !.code = Put(m.world.code, addr, <<>>),
                                       !.storage = [k \in {x \in DOMAIN m.world.storage : x[1] # addr} |-> m.world.storage[k]],
                                       !.tstorage = [k \in {x \in DOMAIN m.world.tstorage : x[1] # addr} |-> m.world.tstorage[k]]]
-                w1 == Transfer(w0, f.this, addr, value)
-                nf == NewFrame(kind, addr, addr, init, f.this, f.origin, value, <<>>, FALSE, f.depth + 1,
+                w1 == Transfer(w0, sender, addr, value)
+                nf == NewFrame(kind, addr, addr, init, sender, origin, value, <<>>, FALSE, f.depth + 1,
                                m.world, Len(m.logs), 0, 0)
-            IN [m1 EXCEPT !.frames = Append(m1.frames, nf), !.world = w1]
+            IN [m1 EXCEPT !.frames = Append(m1.frames, [nf EXCEPT !.viaPrank = pranked]), !.world = w1]
 
 -----------------------------------------------------------------------------
 (* one instruction *)
@@ -391,6 +473,7 @@ InitMachine(world, env, tx) ==
                                tx.value, data, tx.static, 1, world, 0, 0, 0) >>,
         world |-> [w0 EXCEPT !.tstorage = EmptyMap],
         logs |-> <<>>, ncreated |-> 0, env |-> env,
+        failed |-> FALSE, cheated |-> FALSE, noracle |-> 0,
         result |-> [ok |-> FALSE, kind |-> "", data |-> <<>>]]
 
 -----------------------------------------------------------------------------
@@ -412,24 +495,26 @@ WordsWellFormed(m) ==
 \* inside a static frame nothing observable has changed since the outermost static frame began
 StaticNoWrite(m) ==
     \A i \in 1..Len(m.frames) :
-        (m.frames[i].static /\ (i = 1 \/ ~m.frames[i - 1].static) /\ i > 1) =>
+        (~m.cheated /\ m.frames[i].static /\ (i = 1 \/ ~m.frames[i - 1].static) /\ i > 1) =>
             /\ m.world = m.frames[i].snapWorld
             /\ Len(m.logs) = m.frames[i].snapLogs
 \* every frame sees the context its call kind prescribes
 ContextCorrect(m) ==
     \A i \in 2..Len(m.frames) :
         LET c == m.frames[i]  p == m.frames[i - 1]
-        IN /\ c.origin = p.origin
+            own == ~c.viaPrank          \* a pranked call deliberately sees another sender (and origin)
+        IN /\ (own => c.origin = p.origin)
            /\ (p.static => c.static)
-           /\ CASE c.kind = "CALL" -> c.caller = p.this /\ c.this = c.codeaddr
-                [] c.kind = "STATICCALL" -> c.caller = p.this /\ c.this = c.codeaddr /\ c.static /\ BIsZero(c.value)
-                [] c.kind = "DELEGATECALL" -> c.caller = p.caller /\ c.this = p.this /\ c.value = p.value
-                [] c.kind = "CALLCODE" -> c.caller = p.this /\ c.this = p.this
-                [] c.kind \in {"CREATE", "CREATE2"} -> c.caller = p.this /\ ~c.static /\ c.data = <<>>
+           /\ ~c.prank.active \/ c.pc > 0      \* a frame never starts with an inherited prank
+           /\ CASE c.kind = "CALL" -> (own => c.caller = p.this) /\ c.this = c.codeaddr
+                [] c.kind = "STATICCALL" -> (own => c.caller = p.this) /\ c.this = c.codeaddr /\ c.static /\ BIsZero(c.value)
+                [] c.kind = "DELEGATECALL" -> c.caller = p.caller /\ c.this = p.this /\ c.value = p.value /\ own
+                [] c.kind = "CALLCODE" -> c.caller = p.this /\ c.this = p.this /\ own
+                [] c.kind \in {"CREATE", "CREATE2"} -> (own => c.caller = p.this) /\ ~c.static /\ c.data = <<>>
 \* value transfers only move balance between accounts
-BalanceConserved(m, total0) == TotalBalance(m.world) = total0
+BalanceConserved(m, total0) == m.cheated \/ TotalBalance(m.world) = total0
 \* a finished failed transaction leaves the world as it found it
 FailureRestores(m, world0) ==
-    (m.status = "done" /\ ~m.result.ok) => (m.world.storage = world0.storage /\ m.world.balance = world0.balance
+    (m.status = "done" /\ ~m.result.ok /\ ~m.cheated /\ m.result.kind # "Fail") => (m.world.storage = world0.storage /\ m.world.balance = world0.balance
                                              /\ m.world.code = world0.code /\ m.logs = <<>>)
 =============================================================================
